@@ -179,7 +179,7 @@ impl Builder {
         let mut inst = dr::Instruction::new(spirv::Op::Unreachable, None, None, vec![]);
         self.insert_end_block(insert_point, inst)
     }
-    #[doc = "Appends an OpLifetimeStart instruction and ends the current block."]
+    #[doc = "Appends an OpLifetimeStart instruction to the current block."]
     pub fn lifetime_start(&mut self, pointer: spirv::Word, size: u32) -> BuildResult<()> {
         #[allow(unused_mut)]
         let mut inst = dr::Instruction::new(
@@ -188,9 +188,9 @@ impl Builder {
             None,
             vec![dr::Operand::IdRef(pointer), dr::Operand::LiteralBit32(size)],
         );
-        self.end_block(inst)
+        self.insert_into_block(InsertPoint::End, inst)
     }
-    #[doc = "Insert an OpLifetimeStart instruction and ends the current block."]
+    #[doc = "Insert an OpLifetimeStart instruction to the current block."]
     pub fn insert_lifetime_start(
         &mut self,
         insert_point: InsertPoint,
@@ -204,9 +204,9 @@ impl Builder {
             None,
             vec![dr::Operand::IdRef(pointer), dr::Operand::LiteralBit32(size)],
         );
-        self.insert_end_block(insert_point, inst)
+        self.insert_into_block(insert_point, inst)
     }
-    #[doc = "Appends an OpLifetimeStop instruction and ends the current block."]
+    #[doc = "Appends an OpLifetimeStop instruction to the current block."]
     pub fn lifetime_stop(&mut self, pointer: spirv::Word, size: u32) -> BuildResult<()> {
         #[allow(unused_mut)]
         let mut inst = dr::Instruction::new(
@@ -215,9 +215,9 @@ impl Builder {
             None,
             vec![dr::Operand::IdRef(pointer), dr::Operand::LiteralBit32(size)],
         );
-        self.end_block(inst)
+        self.insert_into_block(InsertPoint::End, inst)
     }
-    #[doc = "Insert an OpLifetimeStop instruction and ends the current block."]
+    #[doc = "Insert an OpLifetimeStop instruction to the current block."]
     pub fn insert_lifetime_stop(
         &mut self,
         insert_point: InsertPoint,
@@ -231,7 +231,7 @@ impl Builder {
             None,
             vec![dr::Operand::IdRef(pointer), dr::Operand::LiteralBit32(size)],
         );
-        self.insert_end_block(insert_point, inst)
+        self.insert_into_block(insert_point, inst)
     }
     #[doc = "Appends an OpTerminateInvocation instruction and ends the current block."]
     pub fn terminate_invocation(&mut self) -> BuildResult<()> {
@@ -318,14 +318,14 @@ impl Builder {
         }
         self.insert_end_block(insert_point, inst)
     }
-    #[doc = "Appends an OpDemoteToHelperInvocation instruction and ends the current block."]
+    #[doc = "Appends an OpDemoteToHelperInvocation instruction to the current block."]
     pub fn demote_to_helper_invocation(&mut self) -> BuildResult<()> {
         #[allow(unused_mut)]
         let mut inst =
             dr::Instruction::new(spirv::Op::DemoteToHelperInvocation, None, None, vec![]);
-        self.end_block(inst)
+        self.insert_into_block(InsertPoint::End, inst)
     }
-    #[doc = "Insert an OpDemoteToHelperInvocation instruction and ends the current block."]
+    #[doc = "Insert an OpDemoteToHelperInvocation instruction to the current block."]
     pub fn insert_demote_to_helper_invocation(
         &mut self,
         insert_point: InsertPoint,
@@ -333,6 +333,6 @@ impl Builder {
         #[allow(unused_mut)]
         let mut inst =
             dr::Instruction::new(spirv::Op::DemoteToHelperInvocation, None, None, vec![]);
-        self.insert_end_block(insert_point, inst)
+        self.insert_into_block(insert_point, inst)
     }
 }
